@@ -35,10 +35,15 @@ func files(ext string, helpers bool) map[string]string {
 		"views/v2/a" + ext:           `{{define "content"}}C-v2[{{.}}]{{end}}`,
 		"views/v2/sub/b" + ext:       `{{define "extra2"}}X2{{end}}{{define "h"}}H-v2{{end}}`,
 		"views/v2/readme.txt":        `not a template {{`,
+		// directories with unusual names ("any names"): dot-prefixed, blank inside, upper case
+		"views/v1/.partials/p" + ext:    `{{define "dotview"}}DV{{end}}`,
+		"layouts/default/.parts/q" + ext: `{{define "dotlayout"}}DL{{end}}`,
+		"layouts/alt/Sub Dir/r" + ext:    `{{define "spacedlayout"}}SL{{end}}`,
 	}
 	if helpers {
 		f["helpers/h"+ext] = `{{define "h"}}H[{{.}}]{{template "h2" .}}{{end}}`
 		f["helpers/sub/h2"+ext] = `{{define "h2"}}(h2){{end}}`
+		f["helpers/.shared/s"+ext] = `{{define "dothelper"}}DH{{end}}`
 	} else {
 		// without helpers the layouts must define h themselves
 		f["layouts/default/h"+ext] = `{{define "h"}}H-layout{{end}}`
